@@ -153,7 +153,7 @@ def run(tier, replay=None):
 
     # ---- images of generated rule sets
     nex, nsec = (4, 10) if tier == "quick" else (30, 80)
-    cases = ac.gen_cases(r, nex, sizes=("tiny",)) + ac.gen_cases(r, nsec, sizes=("tiny", "small", "small", "large"))
+    cases = ac.gen_cases(r, nex, sizes=("tiny",), corpus=False) + ac.gen_cases(r, nsec, sizes=("tiny", "small", "small", "large"), corpus=False)
     env = ac.scratch_env(PID, {"ASAN_OPTIONS": "detect_leaks=0:symbolize=0:exitcode=99:abort_on_error=0",
                                "UBSAN_OPTIONS": "halt_on_error=0:print_stacktrace=0:symbolize=0"})
     if replay:
